@@ -206,7 +206,9 @@ class SimulatorWorkerThread(Thread):
                         self._job._run()
                         self._job.fire_timed(self._job.simulator_time,
                             Simulator.STOP_EVENT, None)
-                        self._job._run_state = RunState.STOPPED
+                        # not when cleanup() was called during the run
+                        if not self._finalized:
+                            self._job._run_state = RunState.STOPPED
                     except Exception as e:
                         print("Simulator run interrupted by exception:")
                         print(str(e))
